@@ -153,6 +153,9 @@ def programs(tier):
     for dest in ('bytesio', 'path', 'newpath'):
         for cb in (None, 'count', 'raise'):
             progs.append({'cfg': scen.ops_cfg('bytes', 4096), 'steps': [con, ('pull', '/f', dest, {'cb': cb} if cb else {})]})
+    for dest in ('newdir',):
+        # a local destination that cannot be opened (its directory does not exist): same exception, and the same bytes on the wire before it
+        progs.append({'cfg': scen.ops_cfg('two', 4096), 'steps': [con, ('pull', '/f', dest), scen.op_tuple('stat'), scen.op_tuple('shell')]})
     for md in (65536, 100000, 256 * 1024, 1024 * 1024):
         progs.append({'cfg': scen.ops_cfg('one', md), 'steps': [con, ('push', ('bytes', scen.push_data(200000)), '/big', {'mtime': 3}), scen.op_tuple('stat')]})
     ucfg = scen.ops_cfg('two', 4096)
